@@ -33,7 +33,7 @@ fn module(sh: Arc<Shared>) -> RpcModule<Arc<Shared>> {
 	m.register_method("probe", |_, sh, ext| {
 		if let Some(g) = ext.get::<ConnectionGuard>() {
 			*sh.guard.lock().unwrap() = Some(g.clone());
-			(g.max_connections() - g.available_connections()) as u64
+			(g.max_connections() as i64 - g.available_connections() as i64).max(0) as u64
 		} else {
 			u64::MAX
 		}
@@ -260,7 +260,10 @@ async fn run_spec(spec: &Spec) -> Out {
 					out.admitted += 1;
 					// mid-body: the slot is taken now
 					if let Some(g) = sh.guard.lock().unwrap().clone() {
-						let occ = g.max_connections() - g.available_connections();
+						if g.available_connections() > g.max_connections() {
+				out.violations.push(("cap-exceeded/more-permits-than-max".to_string(), format!("the guard offers {} free slots although max_connections is {}", g.available_connections(), g.max_connections())));
+			}
+			let occ = g.max_connections().saturating_sub(g.available_connections());
 						out.occupancy_checks += 1;
 						if occ != served + 1 {
 							bad!("occupancy-wrong/http-mid-body", "guard shows {occ} in use, model {} (a request body is being read)", served + 1);
@@ -401,6 +404,31 @@ async fn run_spec(spec: &Spec) -> Out {
 			}
 			Op::Stop => {
 				let _ = srv.handle.stop();
+				// after the stop signal, connections with a call in flight are still being served (and hold their slot) until the
+				// call has finished; idle WebSocket sessions are closed at once
+				settle(20).await;
+				let released_now: Vec<String> = sh.finished.lock().unwrap().clone();
+				let ws_busy = wss.iter().flatten().filter(|w| w.held_tags.iter().any(|t| !released_now.contains(t))).count();
+				let http_busy = held.iter().flatten().count();
+				let still = ws_busy + http_busy;
+				if let Some(g) = sh.guard.lock().unwrap().clone() {
+					let occ = g.max_connections().saturating_sub(g.available_connections());
+					out.occupancy_checks += 1;
+					if occ != still {
+						let why = if occ > still { "slot-not-returned" } else { "slot-returned-early" };
+						bad!(format!("occupancy-wrong/{why}/during-graceful-stop"), "after stop() with {ws_busy} WebSocket session(s) and {http_busy} HTTP call(s) still executing the guard shows {occ} of {} in use", spec.max);
+					}
+				}
+				if still >= spec.max as usize && spec.max > 0 {
+					// the limit is still reached: a further attempt must be refused
+					let rep = srv.http(post(json!({"jsonrpc": "2.0", "id": 1, "method": "probe"}).to_string())).await;
+					out.attempts += 1;
+					if rep.status != 429 {
+						bad!("not-refused-429/during-graceful-stop", "{still} of {} connections are still being served after stop(), a new attempt got status {}", spec.max, rep.status);
+					} else {
+						out.refused += 1;
+					}
+				}
 				// release all gates so handlers can finish
 				for g in sh.gates.lock().unwrap().values() {
 					g.notify_one();
@@ -426,7 +454,10 @@ async fn run_spec(spec: &Spec) -> Out {
 		out.max_served = out.max_served.max(served);
 		out.states.push((served, spec.max));
 		if let Some(g) = sh.guard.lock().unwrap().clone() {
-			let occ = g.max_connections() - g.available_connections();
+			if g.available_connections() > g.max_connections() {
+				out.violations.push(("cap-exceeded/more-permits-than-max".to_string(), format!("the guard offers {} free slots although max_connections is {}", g.available_connections(), g.max_connections())));
+			}
+			let occ = g.max_connections().saturating_sub(g.available_connections());
 			out.occupancy_checks += 1;
 			if occ != served {
 				let why = if occ > served { "slot-not-returned" } else { "slot-returned-early" };
@@ -471,7 +502,7 @@ fn gen_spec(seed: u64) -> Spec {
 			18 => Op::WsAbortMidCall(r.usize(4)),
 			19 => if r.chance(1, 3) { Op::WsBadHandshake } else { Op::WsHalfUpgrade(r.bool()) },
 			_ => {
-				if i + 2 >= n && r.chance(1, 2) {
+				if i * 3 >= n * 2 {
 					Op::Stop
 				} else {
 					Op::HttpQuick
